@@ -305,11 +305,51 @@ fn workload_b(ctx: &Ctx, env: &Env, rng: &mut Rng, cs: u64) {
         };
         let t0 = Instant::now();
         let r: Result<Option<tiny_http::Request>, ()> = match &op {
-            Op::Recv => lib(|| server.recv()).map(Some).map_err(|_| ()),
-            Op::IterNext => match lib(|| server.incoming_requests().next()) {
-                Some(rq) => Ok(Some(rq)),
-                None => Err(()),
-            },
+            Op::Recv | Op::IterNext => {
+                // the model says the queue is not empty, so this returns at once on a correct
+                // implementation; on a defective one it could block for ever: run it on a helper
+                // thread under a watchdog
+                let (tx, rx) = std::sync::mpsc::channel();
+                let (srv, iter) = (server.clone(), op == Op::IterNext);
+                let h = spawn_named("bcall", move || {
+                    let r: Result<Option<tiny_http::Request>, ()> = if iter {
+                        match lib(|| srv.incoming_requests().next()) {
+                            Some(rq) => Ok(Some(rq)),
+                            None => Err(()),
+                        }
+                    } else {
+                        lib(|| srv.recv()).map(Some).map_err(|_| ())
+                    };
+                    let _ = tx.send(r);
+                });
+                match rx.recv_timeout(Duration::from_millis(1500)) {
+                    Ok(r) => {
+                        let _ = h.join();
+                        r
+                    }
+                    Err(_) => {
+                        let snap = server.verif_queue_snapshot();
+                        calls.push(format!("#{} {:?} -> DID NOT RETURN within 1.5 s; queue snapshot {:?}", ci, op, snap));
+                        if verdict.is_none() {
+                            verdict = Some((
+                                "C17/B/blocking-receive-found-queue-empty".into(),
+                                format!(
+                                    "call #{} {:?} blocked although the FIFO model still holds {} item(s): earlier calls removed more than one item each (snapshot {:?})",
+                                    ci,
+                                    op,
+                                    model.len(),
+                                    snap
+                                ),
+                            ));
+                        }
+                        server.unblock();
+                        let _ = h.join();
+                        // drain a possibly left-over token of ours
+                        let _ = server.try_recv().map(|r| r.map(|rq| rq.respond(Response::from_string("drained"))));
+                        break;
+                    }
+                }
+            }
             Op::RecvTimeout(us) => lib(|| server.recv_timeout(Duration::from_micros(*us))).map_err(|_| ()),
             Op::TryRecv => lib(|| server.try_recv()).map_err(|_| ()),
         };
@@ -686,7 +726,15 @@ fn workload_t(ctx: &Ctx, env: &Env, rng: &mut Rng, cs: u64) {
             return;
         }
     }
-    if let Some(e) = empties.iter().find(|e| **e > upper) {
+    // Upper bound: a single late sample on a busy machine is one starved thread (the calibrator
+    // watches the process, not every thread) and is inconclusive; a defect in the timeout
+    // accounting is systematic and shows in several samples of the trial.
+    let n_late = empties.iter().filter(|e| **e > upper).count();
+    rep.counts.add("T_late_samples", n_late as u64);
+    if n_late == 1 {
+        rep.inconclusive("T: a single late timed receive (one starved thread is not a verdict)");
+    }
+    if let Some(e) = empties.iter().find(|e| **e > upper).filter(|_| n_late >= 2) {
         if over_us < 20_000 && cal.healthy(Duration::from_millis(50)) {
             violation(
                 ctx,
